@@ -5,4 +5,4 @@ pub const BRANCH_NODE_SIZE: usize = 4096;
 
 #[cfg(kani)]
 #[path = "/verif/units/kani/branch_mod.rs"]
-mod verif_kani;
+pub(crate) mod verif_kani;
